@@ -47,12 +47,13 @@ impl Fec {
     pub fn is_rs(self) -> bool {
         matches!(self, Fec::Rs28 | Fec::Rs28Us)
     }
-    /// maximum number of source blocks the payload id can number
+    /// maximum number of source blocks the wire format can number (SBN field
+    /// width of the FEC payload id, and the Z field for RaptorQ / Raptor)
     pub fn max_blocks(self) -> u64 {
         match self {
-            Fec::NoCode => 65535,
-            Fec::Rs28 => 255,
-            Fec::Rs28Us => u32::MAX as u64,
+            Fec::NoCode => 65536,
+            Fec::Rs28 => 1 << 24,
+            Fec::Rs28Us => 1 << 32,
             Fec::RaptorQ => 255,
             Fec::Raptor => 65535,
         }
